@@ -33,13 +33,16 @@ CLAIMED = {
         "the precedence tables are the manual's 13 levels; result types of every operator (wider operand type for + - *, at least Single for /, "
         "Integer for \\ MOD and the logical operators, 0 or -1 for relational ones); the only error of + - * on numbers is OVERFLOW between two "
         "Integers; conversion on assignment fails only with OVERFLOW / TYPE MISMATCH / STRING TOO LONG and otherwise has the target type; "
-        "compiled expression code computes what the reference semantics prescribes (Props/C02.v, C01).",
+        "compiled expression code computes what the reference semantics prescribes; the expression parser builds the tree the table prescribes: for "
+        "every tree over identifiers, literals, unary minus, NOT and the binary operators, at every depth, parsing the tokens of its minimally "
+        "parenthesised rendering returns the tree (columns aside) and stops in front of what follows (Props/C02.v, Proofs/ParseExpr.v, C01).",
         "random and exhaustive (all operator pairs) expression trees rendered with the parentheses the manual's table requires must parse back "
         "to the tree; every operator x operand-type x boundary-value combination model vs crate and against the documented result type; "
         "typed assignment and literal typing against the manual's rules.",
-        "That the parser builds the tree the table prescribes is NOT proved (a round-trip theorem exists for a prototype grammar only); values of ^ "
-        "with a non-Integer operand are compared by type (powf/powi are oracles); numeric functions differential only.",
-        "Coq theorems on operator typing + tree-rendering spec monitor and type-matrix differential check"),
+        "The parse theorem leaves out array / function-call arguments and unary plus, and says 'some fuel suffices' (the Rust parser has no fuel; that the "
+        "model's fuel formula suffices is differential); values of ^ with a non-Integer operand are compared by type (powf/powi are oracles); numeric "
+        "functions and literal typing differential only.",
+        "Coq theorems on operator typing and on the precedence-climbing parser + tree-rendering spec monitor and type-matrix differential check"),
     "C03": entry(
         "the scanner accepts every source text: it returns tokens, never an error, never the model's Panic, never runs out of fuel (Hang) -- "
         "including the progress lemma for number(), the loop that hung in the unrepaired crate (Props/C03.v, Proofs/LexTotal.v).",
